@@ -230,6 +230,9 @@ func runConn(env *script.Env, c Case) (sig, msg, inconclusive string) {
 		if !o.TypeMap {
 			return fail("C19/command-context/typemap", "%s(%q): no type map in context", ev.K, ev.Q)
 		}
+		if o.Deadline {
+			return fail("C19/command-context/deadline", "%s(%q): the context carries a deadline although no option configures one: the per-command context must live exactly as long as the command", ev.K, ev.Q)
+		}
 		if o.Done {
 			return fail("C19/command-context/cancelled-early", "%s(%q): per-command context already cancelled while the callback runs", ev.K, ev.Q)
 		}
